@@ -199,6 +199,28 @@ pub fn gen_case(prop: &str, seed: u64) -> Case {
         "C08" | "C09" | "C10" => gen_sched(prop, &mut case, &mut wrng, &mut krng, &mut knobs, avoid),
         _ => {}
     }
+    if std::env::var("RLSIM_TIER").as_deref() == Ok("thorough") {
+        match prop {
+            // every crash index, every byte of manifest writes
+            "C04" => {
+                case.params.insert("all_points".into(), 1);
+            }
+            // every bit of the last 24 bytes of every file, more positions per file
+            "C18" => {
+                case.params.insert("all_trailer_bytes".into(), 1);
+                case.params.insert("per_file".into(), 16);
+            }
+            // every (operator, item, kind), more I/O faults per statement
+            "C15" => {
+                case.params.insert("max_op_faults_per_stmt".into(), 400);
+                case.params.insert("max_io_faults_per_stmt".into(), 40);
+            }
+            "C08" | "C09" | "C10" => {
+                case.params.insert("max_decisions".into(), 800);
+            }
+            _ => {}
+        }
+    }
     // first keys are "required by the range-filter scan rule"; only C05, whose quantifier names
     // the option, runs without them (and only outside the avoidance share)
     if !(prop == "C05" && !avoid.on) {
